@@ -30,9 +30,68 @@ Definition head_of (qn : N) (o : sobs) : option task :=
 Definition running_in (qn : N) (o : sobs) : bool :=
   match find_q qn (so_queues o) with Some q => qo_running q | None => false end.
 
+Definition delayed_in (qn : N) (o : sobs) : bool :=
+  match find_q qn (so_queues o) with Some q => qo_delayed q | None => false end.
+
+(* while a queue waits in the back-off delay after a failed run, the failed task stays its
+   head and nothing of the queue runs, whatever else happens; the delay ends only by
+   elapsing (or by Shutdown) *)
+Definition delay_kept (a : action) (prev cur : sobs) : bool :=
+  forallb (fun p => if qo_delayed p
+                    then match a with
+                         | Stop => true
+                         | Elapse qn => if N.eqb qn (qo_name p) then true
+                                        else delayed_in (qo_name p) cur && negb (running_in (qo_name p) cur)
+                                             && match head_of (qo_name p) prev, head_of (qo_name p) cur with
+                                                | Some t, Some t' => task_eqb t t'
+                                                | _, _ => false
+                                                end
+                         | _ => delayed_in (qo_name p) cur && negb (running_in (qo_name p) cur)
+                                && match head_of (qo_name p) prev, head_of (qo_name p) cur with
+                                   | Some t, Some t' => task_eqb t t'
+                                   | _, _ => false
+                                   end
+                         end
+                    else true) (so_queues prev).
+
 Definition step_ok (cfg : config) (stopped : bool) (a : action) (prev cur : sobs) : bool :=
-  negb (so_bad cur) &&
+  negb (so_bad cur) && (stopped || delay_kept a prev cur) &&
   match a with
+  | FinishWait q =>
+      if running_in q prev && negb stopped then
+        match head_of q prev with
+        | Some t =>
+            if t_allow t then
+              match head_of q cur with Some t' => N.eqb (t_fail t') 0 | None => true end
+              && forallb (fun c => match c_kind c with
+                                   | KStartup => false
+                                   | _ => binding_allow cfg (c_binding c)
+                                   end) (t_ctxs t)
+            else
+              (* the queue waits: same task at the head, failure counted, every context kept, nothing runs *)
+              negb (running_in q cur) && delayed_in q cur
+              && match head_of q cur with
+                 | Some t' => N.eqb (t_fail t') (t_fail t + 1) && N.eqb (t_hook t') (t_hook t)
+                              && list_eqb ctx_eqb (t_ctxs t) (t_ctxs t')
+                 | None => false
+                 end
+        | None => false
+        end
+      else true
+  | Elapse q =>
+      if delayed_in q prev && negb stopped then
+        (* the delay is over: the very same task is executed again next in that queue *)
+        match head_of q prev with
+        | Some t =>
+            running_in q cur && negb (delayed_in q cur)
+            && match head_of q cur with
+               | Some t' => N.eqb (t_fail t') (t_fail t) && N.eqb (t_hook t') (t_hook t)
+                            && retained (t_ctxs t) (t_ctxs t')
+               | None => false
+               end
+        | None => false
+        end
+      else true
   | Finish q false =>
       if running_in q prev && negb stopped then
         match head_of q prev with
